@@ -6,7 +6,93 @@ masked variables with several fill values, attribute kinds, unlimited dimension)
 import itertools
 from .common import *   # noqa
 
-CONTRACTS = []
+import itertools
+import z3
+from pyvc.exec import Obj, Opaque
+from pyvc.models import native
+
+PG = 'pncgen.py'
+
+
+def make_pvar(ctx, present):
+    """abstract source variable: masked data, attributes per presence pattern"""
+    vals = dict(missing_value=ctx.fresh('missing_value', 'Real'), fill_value=ctx.fresh('fill_value', 'Real'), _FillValue=ctx.fresh('FillValue_attr', 'Real'))
+    attrs = {k: vals[k] for k in present}
+    attrs['units'] = 'ppb'
+    pv = Obj(None, dict(attrs), tag='pvar')
+    pv.attrs['dimensions'] = ('t', 'x')
+    pv.attrs['ndim'] = 2
+    names = [k for k in ('units',) + tuple(present)]
+    pv.attrs['ncattrs'] = native(lambda I, a, k: list(names))
+    pv.attrs['typecode'] = native(lambda I, a, k: 'f')
+    data = Obj(None, {}, tag='masked-data')
+    data.ghost['isa'] = {'numpy.ma.MaskedArray', 'numpy.ma.core.MaskedArray'}
+
+    def filled(I, a, k):
+        I.ctx.ghost.setdefault('filled_with', []).append(a[0])
+        return Opaque('filled data')
+    data.attrs['filled'] = native(filled)
+    data.attrs['dtype'] = Opaque('dtype')
+    pv.attrs['__getitem__'] = native(lambda I, a, k: data)
+    return pv, vals
+
+
+def make_nfile(ctx):
+    """abstract netCDF4 target: createVariable(fill_value=X) gives the variable the attribute _FillValue = X"""
+    nf = Obj(None, {'variables': {}}, tag='nfile')
+
+    def create(I, a, k):
+        nv = Obj(None, {'ndim': 2}, tag='nvar')
+        nv.ghost['isa'] = {'netCDF4.Variable', 'netCDF4._netCDF4.Variable'}
+        I.ctx.ghost.setdefault('created_with', []).append(k.get('fill_value', 'no-fill-value'))
+        if 'fill_value' in k:
+            nv.attrs['_FillValue'] = k['fill_value']
+
+        def setnc(I2, a2, k2):
+            nv.attrs[a2[0]] = a2[1]
+        nv.attrs['setncattr'] = native(setnc)
+        nv.attrs['__setitem__'] = native(lambda I2, a2, k2: I2.ctx.ghost.setdefault('written', []).append(a2[1]))
+        nf.attrs['variables'][a[0]] = nv
+        return nv
+    nf.attrs['createVariable'] = native(create)
+    nf.attrs['sync'] = native(lambda I, a, k: None)
+    nf.attrs['flush'] = native(lambda I, a, k: None)
+    return nf
+
+
+class FillConsistent(Contract):
+    """lemma C07/fill-consistent: for a masked source variable carrying any non-empty subset of the attributes
+    missing_value / fill_value / _FillValue (arbitrary values), the value used to fill masked cells equals the fill value
+    the netCDF variable was created with (so the masked cells are read back as masked)"""
+    prop = 'C07'
+    target = PG + '::Pseudo2NetCDF.addVariable'
+
+    def __init__(self, present):
+        self.present = present
+        self.name = 'addVariable[%s]' % ','.join(present)
+
+    def inputs(self, ctx, I):
+        pv, self.vals = make_pvar(ctx, self.present)
+        pf = Obj(None, {'variables': {'v': pv}}, tag='pfile')
+        nf = make_nfile(ctx)
+        s = self_obj(I, PG, 'Pseudo2NetCDF', {})
+        return dict(self=s, pfile=pf, nfile=nf, k='v', data=True)
+
+    def ensures(self, inp, res, I):
+        cw = I.ctx.ghost.get('created_with', [])
+        fw = I.ctx.ghost.get('filled_with', [])
+        if len(cw) != 1 or len(fw) != 1:
+            return [('one-variable-created-and-filled-once', False)]
+        created, filled = cw[0], fw[0]
+        expect = self.vals[[k for k in ('missing_value', 'fill_value', '_FillValue') if k in self.present][0]]
+        return [('created-with-documented-precedence', (not isinstance(created, str)) and eq(created, expect)),
+                ('masked-cells-filled-with-the-created-fill-value', (not isinstance(created, str)) and eq(filled, created)),
+                ('data-written-once', len(I.ctx.ghost.get('written', [])) == 1)]
+
+
+PRESENCE = [p for r in (1, 2, 3) for p in itertools.combinations(('missing_value', 'fill_value', '_FillValue'), r)]
+CONTRACTS = [FillConsistent(p) for p in PRESENCE]
+
 
 
 def bounded(tier, seed):
@@ -151,9 +237,10 @@ def bounded_replay(p):
 
 
 META = dict(
-    level='exploration',
-    technique='bounded run-time contract on the real save/pncopen round trip (libnetcdf persistence cannot be stated as a deductive obligation here)',
-    text='save followed by open compared field by field with the source for every flavour/compression over generated files.',
-    note='bounded only. libnetcdf/HDF5 are external.',
+    level='other',
+    technique='fill-value consistency lemma proved by pyvc over all presence patterns of the three fill attributes; libnetcdf round trip by bounded run-time contract',
+    text='Proved: for a masked source variable with any non-empty subset of missing_value / fill_value / _FillValue and arbitrary values, Pseudo2NetCDF.addVariable creates the netCDF variable '
+         'with the documented precedence and addVariableData fills masked cells with exactly that value. Bounded: save followed by open compared field by field for every flavour/compression.',
+    note='netCDF4 target modelled by its attribute contract (createVariable(fill_value=X) => _FillValue = X); libnetcdf/HDF5 persistence is external and bounded only.',
     assumptions=['libnetcdf/HDF5 persistence (external)'],
-    explanation='')
+    explanation='mixed: proof obligations for the fill-value lemma + bounded exploration of the real save/open round trip')
